@@ -250,7 +250,9 @@ def gen_ctx_mismatch(gs, w):
     v = _plain(gs, w, t)
     if v is None:
         return None
-    b = rng.randrange(len(w.spec["buffers"]))
+    from .objsim import pick_buf
+
+    b = pick_buf(w, rng)
     return {"type": t, "value": v, "buf": b, "ctx": rng.choice(["default"] + list(range(len(w.ctxs))))}
 
 
@@ -272,7 +274,7 @@ def gen_offset_nobuf(gs, w):
 
 
 def run(step):
-    from .objsim import Skip, xo
+    from .objsim import pick_buf, Skip, xo
 
     w, op = step.w, step.op
     kind = op["kind"]
